@@ -224,6 +224,75 @@ class LocalSem:
         return None
 
 
+# --------------------------------------------------------------------------------------------
+# the 'fresh' dimension: what a caller may do to an answer it received
+# --------------------------------------------------------------------------------------------
+
+SENTINEL = -7          # never a point value, a cell coordinate or a key
+
+
+def damage(obj, kind):
+    """Edit a returned object in place at every nesting level (kind 'append': put the sentinel
+    into every list / dict / set; kind 'clear': empty them).  Immutable objects are left alone;
+    a pattern object is searched through its attributes.  Returns True iff something was edited."""
+    if isinstance(obj, list):
+        for x in list(obj):
+            damage(x, kind)
+        if kind == "append":
+            obj.append(SENTINEL)
+        else:
+            obj.clear()
+        return True
+    if isinstance(obj, dict):
+        for x in list(obj.values()):
+            damage(x, kind)
+        if kind == "append":
+            obj[SENTINEL] = [SENTINEL]
+        else:
+            obj.clear()
+        return True
+    if isinstance(obj, set):
+        if kind == "append":
+            obj.add((SENTINEL, SENTINEL))
+        else:
+            obj.clear()
+        return True
+    if isinstance(obj, (tuple, frozenset, str, int)) or obj is None:
+        done = False
+        if isinstance(obj, tuple):
+            for x in obj:
+                done = damage(x, kind) or done
+        return done
+    done = False
+    for name in ("pattern", "shading"):
+        if hasattr(obj, name):
+            done = damage(getattr(obj, name), kind) or done
+    return done
+
+
+def norm_result(obj):
+    """A plain, comparable, JSON-able picture of a result."""
+    if isinstance(obj, list):
+        return ["list", [norm_result(x) for x in obj]]
+    if isinstance(obj, tuple):
+        return ["tuple", [norm_result(x) for x in obj]]
+    if isinstance(obj, dict):
+        return ["dict", sorted(([norm_result(k), norm_result(v)] for k, v in obj.items()), key=repr)]
+    if isinstance(obj, (set, frozenset)):
+        return ["set", sorted((norm_result(x) for x in obj), key=repr)]
+    if isinstance(obj, (int, str, bool)) or obj is None:
+        return obj
+    if hasattr(obj, "pattern") and hasattr(obj, "shading"):
+        return ["meshpatt", norm_result(tuple(obj.pattern)), norm_result(frozenset(obj.shading))]
+    return repr(obj)
+
+
+def holds_sentinel(n):
+    if isinstance(n, list):
+        return any(holds_sentinel(x) for x in n)
+    return n == SENTINEL and not isinstance(n, bool)
+
+
 def first_bit(x):
     return (x & -x).bit_length() - 1
 
